@@ -616,6 +616,24 @@ impl<'m> HygieneRename<'m> {
         ts.into_iter()
             .map(|tt| match tt {
                 TokenTree::Ident(i) => TokenTree::Ident(self.rn(&i).unwrap_or(i)),
+                // inline format arguments name locals inside the string: `format!("{n}")`
+                TokenTree::Literal(l) => {
+                    let txt = l.to_string();
+                    if txt.starts_with('"') && txt.contains('{') {
+                        let mut t2 = txt.clone();
+                        for (from, to) in self.map.iter() {
+                            t2 = t2.replace(&format!("{{{}}}", from), &format!("{{{}}}", to)).replace(&format!("{{{}:", from), &format!("{{{}:", to));
+                        }
+                        if t2 != txt {
+                            if let Ok(ts) = t2.parse::<TokenStream>() {
+                                if let Some(TokenTree::Literal(nl)) = ts.into_iter().next() {
+                                    return TokenTree::Literal(nl);
+                                }
+                            }
+                        }
+                    }
+                    TokenTree::Literal(l)
+                }
                 TokenTree::Group(g) => {
                     let mut ng = Group::new(g.delimiter(), self.tokens(g.stream()));
                     ng.set_span(g.span());
